@@ -53,6 +53,9 @@ type txSpec struct {
 	// Q*size + R (+ size/2 with RHalf), size being the size of this very transaction.
 	Q, R  int64
 	RHalf bool
+	// explicit attribute LAYOUT (layout_test.go): if non-nil the attributes are exactly these tokens in this
+	// order ("C:<tx name>", "HP", "OR:<id>", "NVB", "NA", "R") and High/Confl/Oracle must be unset.
+	Attrs []string
 }
 
 type opKind int
@@ -78,6 +81,7 @@ type scenario struct {
 	Bal    map[string]int64 // initial balances by payer name ("S1", "N/D1")
 	Caps   []int
 	Blocks []op
+	Depth  int      // layout families: maximal length of the operation sequences of the quick tier (0 = the run's depth); thorough adds one
 	Order  []string // fpb families: the strict priority chain the alphabet was designed to have (checked at build time with the independent key)
 	txs    []*transaction.Transaction
 	ops    []op
@@ -127,6 +131,12 @@ func (sc *scenario) build() {
 			for _, a := range s.Signers {
 				t.Signers = append(t.Signers, transaction.Signer{Account: acc(a)})
 				t.Scripts = append(t.Scripts, transaction.Witness{InvocationScript: []byte{}, VerificationScript: []byte{}})
+			}
+			if s.Attrs != nil {
+				if s.High || len(s.Confl) > 0 || s.Oracle != 0 {
+					panic("Attrs excludes High/Confl/Oracle: " + s.Name)
+				}
+				t.Attributes = layoutAttrs(s.Attrs, byName)
 			}
 			if s.High {
 				t.Attributes = append(t.Attributes, transaction.Attribute{Type: transaction.HighPriority})
@@ -285,6 +295,8 @@ func scenarios() []*scenario {
 	}
 	// the families for additions with overlapping side effects go FIRST (sharpest, see overlap_test.go)
 	scs = append(overlapScenarios(), scs...)
+	// ...after the attribute-LAYOUT families (layout_test.go): tiny alphabets, short sequences, run first
+	scs = append(layoutScenarios(), scs...)
 	// ...after the families whose fee-per-byte / network-fee keys sit at the rounding and width boundaries (fpb_test.go)
 	scs = append(fpbScenarios(), scs...)
 	if only := os.Getenv("C08_ONLY"); only != "" { // development aid: "fpb,fee-width" keeps, "!fpb,!fee-width" drops families by substring
@@ -430,16 +442,16 @@ func (in *inst) observe() (obs string, broken string) {
 	oracle := map[uint64]int{}
 	for _, i := range l {
 		t := sc.txs[i]
-		for _, a := range t.GetAttributes(transaction.ConflictsT) {
-			h := a.Value.(*transaction.Conflicts).Hash
-			for _, j := range l {
-				if sc.txs[j].Hash() == h {
-					broken = "conflicting-pair-pooled"
-				}
+		// the attributes are read with the check's own loops (namesCount / oracleID in model_test.go), never through the subject's accessors
+		for _, j := range l {
+			if namesCount(t, sc.txs[j]) > 0 {
+				broken = "conflicting-pair-pooled"
 			}
 		}
-		for _, a := range t.GetAttributes(transaction.OracleResponseT) {
-			oracle[a.Value.(*transaction.OracleResponse).ID]++
+		for k := range t.Attributes {
+			if t.Attributes[k].Type == transaction.OracleResponseT {
+				oracle[t.Attributes[k].Value.(*transaction.OracleResponse).ID]++
+			}
 		}
 	}
 	for _, n := range oracle {
@@ -463,15 +475,8 @@ func (in *inst) observe() (obs string, broken string) {
 		want := seen[i]
 		for _, j := range l {
 			o := sc.txs[j]
-			for _, a := range o.GetAttributes(transaction.ConflictsT) {
-				if a.Value.(*transaction.Conflicts).Hash == t.Hash() {
-					want = true
-				}
-			}
-			for _, a := range t.GetAttributes(transaction.ConflictsT) {
-				if a.Value.(*transaction.Conflicts).Hash == o.Hash() {
-					want = true
-				}
+			if namesCount(o, t) > 0 || namesCount(t, o) > 0 {
+				want = true
 			}
 		}
 		if hc != want {
@@ -541,21 +546,12 @@ func fpbOf(t *transaction.Transaction) int64 { return t.NetworkFee / int64(t.Siz
 
 // related: does adding t justify removing o (Conflicts either way or same oracle id)?
 func related(t, o *transaction.Transaction) bool {
-	for _, a := range t.GetAttributes(transaction.ConflictsT) {
-		if a.Value.(*transaction.Conflicts).Hash == o.Hash() {
-			return true
-		}
-	}
-	for _, a := range o.GetAttributes(transaction.ConflictsT) {
-		if a.Value.(*transaction.Conflicts).Hash == t.Hash() {
-			return true
-		}
-	}
-	ta, oa := t.GetAttributes(transaction.OracleResponseT), o.GetAttributes(transaction.OracleResponseT)
-	if len(ta) > 0 && len(oa) > 0 && ta[0].Value.(*transaction.OracleResponse).ID == oa[0].Value.(*transaction.OracleResponse).ID {
+	if namesCount(t, o) > 0 || namesCount(o, t) > 0 {
 		return true
 	}
-	return false
+	ti, tok := oracleID(t)
+	oi, ook := oracleID(o)
+	return tok && ook && ti == oi
 }
 
 // ---- exploration ---------------------------------------------------------------
@@ -579,6 +575,7 @@ type explorer struct {
 	probeDepth int
 	preDepth   int // levels explored (and cached) by the shallow first pass
 	passDepth  int // depth limit of the running pass (set between passes)
+	maxDepth   int // depth limit of this scenario (layout families are explored to a smaller depth)
 	quietUpTo  int // sequences up to this length were counted by an earlier pass (set between passes)
 	nodes      vk.Counter
 	execs      vk.Counter
@@ -684,6 +681,7 @@ func (e *explorer) node(seq []int, deferProbe bool) (bool, childEval) {
 		if !quiet {
 			e.fam.add(sc, e.cap, before, last.Tx, r, class)
 			e.fam.fpb(sc, e.cap, before, last.Tx, r, after)
+			e.fam.layout(sc, before, last.Tx, r)
 		}
 	}
 	switch {
@@ -702,6 +700,9 @@ func (e *explorer) node(seq []int, deferProbe bool) (bool, childEval) {
 		// continuation up to probeDepth gives identical results and
 		// observations on a pool that never saw the failed Add.
 		pd := e.probeDepth
+		if sc.Depth != 0 {
+			pd = 1 // layout families: one-step continuations in both tiers (many tiny alphabets)
+		}
 		if pd > 1 && len(seq) >= e.passDepth && e.passDepth >= 4 {
 			pd = 1 // deepest level of the thorough tier: one-step continuations only (keeps the run exhaustive within its budget)
 		}
@@ -936,6 +937,10 @@ func TestCheck(t *testing.T) {
 	for _, sc := range scs { // overlap families first
 		for _, c := range sc.Caps {
 			e := &explorer{r: r, sc: sc, cap: c, depth: depth, probeDepth: probeDepth, preDepth: preDepth, states: states, fam: fam, cache: map[string][]childEval{}}
+			e.maxDepth = depth
+			if sc.Depth != 0 {
+				e.maxDepth = min(depth, sc.Depth+vk.Pick(r, 0, 1))
+			}
 			exps = append(exps, e)
 			for k := range sc.ops {
 				jobs = append(jobs, job{e, k})
@@ -963,8 +968,11 @@ func TestCheck(t *testing.T) {
 		}
 		r.Parallel(len(jobs), func(i int) {
 			e, k := jobs[i].e, jobs[i].first
+			if pi >= 1 && e.maxDepth <= passes[pi-1] {
+				return // a scenario with a smaller depth limit was finished by the previous pass
+			}
 			if root := e.children(nil); root != nil && root[k].ok {
-				e.expand([]int{k}, d)
+				e.expand([]int{k}, min(d, e.maxDepth))
 			}
 		})
 	}
@@ -994,6 +1002,7 @@ func TestCheck(t *testing.T) {
 		"scenarios":                     alpha,
 	}
 	fam.export(cov)
+	layoutStatic(scs, cov)
 	fpbStatic(scs, cov)
 	r.Finish(cov, []string{
 		"balances change only together with RemoveStale (as on a real node, where both happen at block acceptance)",
